@@ -120,6 +120,8 @@ func runC09(c *Ctx, r *Report) {
 	importRules(c, r, "C10", []string{"R-C10.13"}, "R-C09.18")
 	r.Doc("R-C09.19", "the constructor indexes every predecessor link of every given entry, whether or not the heads were handed in (adopted from C02: the manifest loader hands heads in — with the index built only beside the head search its log keeps a stale head after the next merge, and a rebuild from its state differs between the loaders)")
 	importRules(c, r, "C02", []string{"R-C02.4"}, "R-C09.19")
+	r.Doc("R-C09.20", "the deadline of a fetch is derived once, in Fetch, and the workers touch nothing the dispatcher shares without its mutex (adopted from C11: a per-request timeout chained onto the dispatcher's own context — and cancelled by the first worker that finishes — makes the dispatcher's next slot acquisition fail; it leaves silently and every loader returns little more than the heads, with no error)")
+	importRules(c, r, "C11", []string{"R-C11.12", "R-C11.4"}, "R-C09.20")
 	r.Doc("R-C09.10", "the loops that publish the heads, select the loaded heads and queue links process every element")
 	loopsComplete(c, r, "R-C09.10", func(fn *Fn) bool {
 		return rootNamed(fn, "ToJSONLog", "entrySliceToCids", "fromMultihash", "fromEntryHash", "fromJSON", "fromEntry", "NewFromMultihash", "addHashesToQueue", "addNextEntry", "NewOrderedMapFromEntries")
